@@ -4,6 +4,16 @@
 #![allow(clippy::all)]
 #![allow(dead_code, unused_imports)]
 
+// the engine's print!/println! go to the model of standard output (one lock acquisition per call, like std's);
+// this harness's own output uses std::println! by path
+macro_rules! println {
+    () => { $crate::sched::io::print_str("\n") };
+    ($($arg:tt)*) => { $crate::sched::io::print_str(&format!("{}\n", format_args!($($arg)*))) };
+}
+macro_rules! print {
+    ($($arg:tt)*) => { $crate::sched::io::print_str(&format!($($arg)*)) };
+}
+
 #[path = "/repo/src/board.rs"]
 mod board;
 #[path = "/repo/src/draw_table.rs"]
@@ -55,7 +65,7 @@ fn finish(fen: &str, ks: &[usize], bound: &str, gos: usize, complete: bool) -> !
         let items: Vec<String> = v.iter().map(|(p, s, m)| format!("{{\"property\": \"{}\", \"signature\": \"{}\", \"summary\": \"{}\"}}", esc(p), esc(s), esc(m))).collect();
         format!("[{}]", items.join(", "))
     };
-    println!(
+    std::println!(
         "{{\"fen\": \"{}\", \"expiry\": {:?}, \"bound\": \"{}\", \"gos\": {}, \"executions\": {}, \"complete\": {}, \"outcomes\": {{{}}}, \"violation\": {}}}",
         esc(fen),
         ks,
@@ -121,9 +131,10 @@ fn body(fen: &str, ks: &[usize], gos: usize) {
     loop {
         let h = c.handles.lock().unwrap().pop();
         match h {
-            Some(h) => {
+            Some(Some(h)) => {
                 let _ = h.join();
             }
+            Some(None) => {} // the engine joined it itself
             None => break,
         }
     }
@@ -202,6 +213,32 @@ fn body(fen: &str, ks: &[usize], gos: usize) {
     for q in c.search_queries_after_expiry.lock().unwrap().iter() {
         if *q > bound {
             violate("C08", "search-thread-runs-on-after-expiry", format!("{} expiry {}: {} consultations after the deadline", fen, ks_text, q));
+        }
+    }
+    // what the GUI receives: every line that left through the model of standard output is exactly one of the
+    // messages the engine meant to send (two threads print; a line assembled from several writes can be torn)
+    let emitted = c.emitted.lock().unwrap().clone();
+    let leftover = String::from_utf8_lossy(&c.stdout_buf.lock().unwrap()).to_string();
+    if !emitted.is_empty() || !leftover.is_empty() {
+        let mut pool: Vec<String> = captured.iter().map(|(l, _, _)| l.clone()).collect();
+        for l in &emitted {
+            match pool.iter().position(|m| m == l) {
+                Some(i) => {
+                    pool.remove(i);
+                }
+                None => {
+                    if l.contains("bestmove") {
+                        violate("C03", "output-line-torn-between-threads", format!("{} expiry {}: the GUI receives the line '{}', which is not one of the messages sent", fen, ks_text, l));
+                    }
+                    if l.contains("info") || !l.contains("bestmove") {
+                        violate("C18", "output-line-torn-between-threads", format!("{} expiry {}: the GUI receives the line '{}', which is not one of the messages sent", fen, ks_text, l));
+                    }
+                    outcome.push("torn-line".into());
+                }
+            }
+        }
+        if !leftover.is_empty() {
+            violate("C03", "output-ends-inside-a-line", format!("{} expiry {}: the output ends with the unterminated text '{}'", fen, ks_text, leftover));
         }
     }
     *OUTCOMES.lock().unwrap().entry(outcome.join(" ")).or_insert(0) += 1;
